@@ -255,7 +255,7 @@ type c17 struct{}
 func (c17) ID() string    { return "C17" }
 func (c17) Level() string { return "exploration" }
 func (c17) Rule() string {
-	return "cases = (1) every syntax tree with <=4 leaves (leaves a,b,c,a in order, or brace groups of 1..3 names) over the binary operators ; = -> | & with at most one negation inserted at any node (two for <=3 leaves), rendered with the required parentheses plus every set of <=2 redundant parenthesis pairs (every set for <=3 leaves) in three spacing styles (none, single space, newline+tab); (2) every token string of length <=6 (7 thorough) over {a,b,^,&,|,->,=,;,(,)}; (3) corruptions of the renderings of (1): delete any one token, insert '(' or ')' or an identifier or ';' at any position. Each text is judged by a reference recogniser of the grammar documented in bf/doc.go with the documented priorities and right-nested repetition: in the language => Parse succeeds and the formula's truth table (Formula.Eval) equals that of the reference reading; not in the language => error and nil formula; never a panic. A single trailing ';' is tolerated either way (the statement does not forbid it). Non-trivial = the text has at least two operators."
+	return "cases = (1) every syntax tree with <=4 leaves (leaves a,b,c,a in order, or brace groups of 1..3 names) over the binary operators ; = -> | & with at most one negation inserted at any node (two for <=3 leaves), rendered with the required parentheses plus every set of <=2 redundant parenthesis pairs (every set for <=3 leaves) in three spacing styles (none, single space, newline+tab); (2) every token string of length <=6 (8 thorough) over {a,b,^,&,|,->,=,;,(,)}; (3) corruptions of the renderings of (1): delete any one token, insert '(' or ')' or an identifier or ';' at any position. Each text is judged by a reference recogniser of the grammar documented in bf/doc.go with the documented priorities and right-nested repetition: in the language => Parse succeeds and the formula's truth table (Formula.Eval) equals that of the reference reading; not in the language => error and nil formula; never a panic. A single trailing ';' is tolerated either way (the statement does not forbid it). Non-trivial = the text has at least two operators."
 }
 func (c17) Assumptions() []string {
 	return []string{"the reference recogniser implements the grammar of bf/doc.go extended with brace groups as described in the Parse documentation", "identifiers are single lower-case letters; brace groups have at most 3 names (no auxiliary variables, so Formula.Eval is defined)"}
@@ -348,7 +348,7 @@ func (c17) Enumerate(tier string, seed int64, yield func(string, core.Case) bool
 	alpha := []string{"a", "b", "^", "&", "|", "->", "=", ";", "(", ")"}
 	maxLen := 6
 	if thorough {
-		maxLen = 7
+		maxLen = 8
 	}
 	for m := 0; m <= maxLen; m++ {
 		ok := sequences(len(alpha), m, func(idx []int) bool {
